@@ -66,52 +66,66 @@ RootLists == {<<i>> : i \in SetObjs}
              \cup {<<O(T0, i).kids[2], O(T0, i).kids[1]>> : i \in {j \in NormalObjs : O(T0, j).arity >= 2}}        \* out of order: only the order-free clauses apply
 
 Init == q = [k |-> "none"] /\ done = FALSE
-Fire(d) == ~done /\ done' = TRUE /\ q' = d
+\* every action is guarded by ~done BEFORE its quantifier, so that TLC does not enumerate the query space again from each query state
+Fire(d) == done' = TRUE /\ q' = d
 \* descriptors carry the argument set both as (mask, extra) and as the explicit finite part, for the driver
 SetQ(kind, a) == [k |-> kind, s |-> MaskSet(a[1]), x |-> a[2]]
 
-QCovering == \E a \in SetArgs : Fire(SetQ("covering", a))
-QCacheCovering == \E a \in SetArgs : Fire(SetQ("cache_covering", a))
-QFirstLargest == \E a \in SetArgs : Fire(SetQ("first_largest", a))
-QChildCovering == \E a \in FewSetArgs, p \in NormalObjs \cup {i \in Objs : IsMem(O(T0, i))} : Fire(SetQ("child_covering", a) @@ [parent |-> p])
-QLargest == \E a \in SetArgs, max \in {-1, 0, 1, 2, NPU + 1} : Fire(SetQ("largest", a) @@ [max |-> max])
-QInsideDepth == \E a \in SetArgs, d \in Depths \cup BadDepths : Fire(SetQ("inside_depth", a) @@ [depth |-> d])
-QInsideType == \E a \in SetArgs, ty \in SetTypes : Fire(SetQ("inside_type", a) @@ [type |-> ty])
-QIndexInside == \E a \in FewSetArgs, o \in SetObjs : Fire(SetQ("index_inside", a) @@ [obj |-> o])
-QCoveringDepth == \E a \in SetArgs, d \in Depths \cup BadDepths : Fire(SetQ("covering_depth", a) @@ [depth |-> d])
-QCoveringType == \E a \in SetArgs, ty \in SetTypes : Fire(SetQ("covering_type", a) @@ [type |-> ty])
-QAncDepth == \E o \in Objs, d \in Depths \cup BadDepths \cup {-4, -5, -6, -7} : Fire([k |-> "anc_depth", obj |-> o, depth |-> d])
-QAncType == \E o \in Objs, ty \in 0..(NTYPES - 1) : Fire([k |-> "anc_type", obj |-> o, type |-> ty])
-QCommon == \E a, b \in Objs : Fire([k |-> "common", a |-> a, b |-> b])
-QInSubtree == \E a, b \in SetObjs : Fire([k |-> "in_subtree", obj |-> a, root |-> b])
-QNextChild == \E o \in Objs : Fire([k |-> "next_child", parent |-> o])
-QSharedCache == \E o \in Objs : Fire([k |-> "shared_cache", obj |-> o])
-QNonIOAnc == \E o \in Objs : Fire([k |-> "non_io_anc", obj |-> o])
-QClosest == \E o \in Objs, max \in {0, 1, 2, 3, Cardinality(Objs)} : Fire([k |-> "closest", src |-> o, max |-> max])
-QBelow == \E t1 \in PairTypes, t2 \in PairTypes, i1 \in 0..2, i2 \in 0..2 : Fire([k |-> "below", t1 |-> t1, i1 |-> i1, t2 |-> t2, i2 |-> i2])
-QBelowArray == \E nr \in 0..3, ty \in [1..3 -> PresentTypes \cap SetTypes], ix \in [1..3 -> 0..1] :
+QCovering == ~done /\ \E a \in SetArgs : Fire(SetQ("covering", a))
+QCacheCovering == ~done /\ \E a \in SetArgs : Fire(SetQ("cache_covering", a))
+QFirstLargest == ~done /\ \E a \in SetArgs : Fire(SetQ("first_largest", a))
+QChildCovering == ~done /\ \E a \in FewSetArgs, p \in NormalObjs \cup {i \in Objs : IsMem(O(T0, i))} : Fire(SetQ("child_covering", a) @@ [parent |-> p])
+QLargest == ~done /\ \E a \in SetArgs, max \in {-1, 0, 1, 2, NPU + 1} : Fire(SetQ("largest", a) @@ [max |-> max])
+QInsideDepth == ~done /\ \E a \in SetArgs, d \in Depths \cup BadDepths : Fire(SetQ("inside_depth", a) @@ [depth |-> d])
+QInsideType == ~done /\ \E a \in SetArgs, ty \in SetTypes : Fire(SetQ("inside_type", a) @@ [type |-> ty])
+QIndexInside == ~done /\ \E a \in FewSetArgs, o \in SetObjs : Fire(SetQ("index_inside", a) @@ [obj |-> o])
+QCoveringDepth == ~done /\ \E a \in SetArgs, d \in Depths \cup BadDepths : Fire(SetQ("covering_depth", a) @@ [depth |-> d])
+QCoveringType == ~done /\ \E a \in SetArgs, ty \in SetTypes : Fire(SetQ("covering_type", a) @@ [type |-> ty])
+QAncDepth == ~done /\ \E o \in Objs, d \in Depths \cup BadDepths \cup {-4, -5, -6, -7} : Fire([k |-> "anc_depth", obj |-> o, depth |-> d])
+QAncType == ~done /\ \E o \in Objs, ty \in 0..(NTYPES - 1) : Fire([k |-> "anc_type", obj |-> o, type |-> ty])
+QCommon == ~done /\ \E a, b \in Objs : Fire([k |-> "common", a |-> a, b |-> b])
+QInSubtree == ~done /\ \E a, b \in SetObjs : Fire([k |-> "in_subtree", obj |-> a, root |-> b])
+QNextChild == ~done /\ \E o \in Objs : Fire([k |-> "next_child", parent |-> o])
+QSharedCache == ~done /\ \E o \in Objs : Fire([k |-> "shared_cache", obj |-> o])
+QNonIOAnc == ~done /\ \E o \in Objs : Fire([k |-> "non_io_anc", obj |-> o])
+QClosest == ~done /\ \E o \in Objs, max \in {0, 1, 2, 3, Cardinality(Objs)} : Fire([k |-> "closest", src |-> o, max |-> max])
+QBelow == ~done /\ \E t1 \in PairTypes, t2 \in PairTypes, i1 \in 0..2, i2 \in 0..2 : Fire([k |-> "below", t1 |-> t1, i1 |-> i1, t2 |-> t2, i2 |-> i2])
+QBelowArray == ~done /\ \E nr \in 0..3, ty \in [1..3 -> PresentTypes \cap SetTypes], ix \in [1..3 -> 0..1] :
                  Fire([k |-> "below_array", types |-> SubSeq(ty, 1, nr), idxs |-> SubSeq(ix, 1, nr)])
-QToNodeset == \E a \in SetArgs : Fire(SetQ("to_nodeset", a))
-QFromNodeset == \E m \in NodeArgs : Fire([k |-> "from_nodeset", s |-> {n \in m : n <= MaxNode + 5}, x |-> IF BIG \in m THEN 2 ELSE 0, tail |-> MaxNode + 1])
-QSameLocality == \E o \in Objs, ty \in 0..(NTYPES - 1), st \in {<<>>} \cup {<<s>> : s \in Strs} \cup {<<"NoSuchSubtype">>},
-                    np \in {<<>>} \cup {<<SubSeq(n, 1, 2)>> : n \in Names} \cup {<<n \o "x">> : n \in Names}, fl \in {0, 1} :
-                   (fl = 1 => st = <<>> /\ np = <<>>) /\ Fire([k |-> "same_locality", src |-> o, type |-> ty, st |-> st, np |-> np, flags |-> fl])
-QTypeDepth == \E ty \in (-1..NTYPES) \cup {1000} : Fire([k |-> "type_depth", type |-> ty])
-QTypeLookup == \E ty \in 0..(NTYPES - 1) : Fire([k |-> "type_lookup", type |-> ty])
-QDepthLookup == \E d \in Depths \cup BadDepths \cup {-4, -5, -6, -7} : Fire([k |-> "depth_lookup", depth |-> d])
-QCacheTypeDepth == \E lv \in 0..5, ct \in -1..2 : Fire([k |-> "cache_type_depth", level |-> lv, ctype |-> ct])
-QPuByOs == \E os \in 0..(MaxOs + 2) : Fire([k |-> "pu_by_os", os |-> os])
-QNumaByOs == \E os \in 0..(MaxNode + 2) : Fire([k |-> "numa_by_os", os |-> os])
-QDistrib == \E r \in RootLists, n \in DistribNs, u \in Untils, fl \in {0, 1} : Fire([k |-> "distrib", roots |-> r, n |-> n, until |-> u, flags |-> fl])
-QDistribBad == \E r \in {<<1>>}, n \in {0, 1, 3}, fl \in {0, 2, 3, 256} : (n = 0 \/ fl > 1) /\ Fire([k |-> "distrib", roots |-> r, n |-> n, until |-> INT_MAX, flags |-> fl])
-QSinglify == \E a \in SetArgs, w \in 0..3 : Fire(SetQ("singlify", a) @@ [which |-> w])
+QToNodeset == ~done /\ \E a \in SetArgs : Fire(SetQ("to_nodeset", a))
+QFromNodeset == ~done /\ \E m \in NodeArgs : Fire([k |-> "from_nodeset", s |-> {n \in m : n <= MaxNode + 5}, x |-> IF BIG \in m THEN 2 ELSE 0, tail |-> MaxNode + 1])
+\* (subtype, name prefix) filters: none, each alone (existing ones in their own and in other letter case via the objects
+\* themselves, a non-existing one, a two-letter prefix, a prefix longer than the name), and a few combinations
+Prefixes == {SubSeq(n, 1, 2) : n \in Names} \cup {n \o "x" : n \in Names}
+LocFilters == {<<<<>>, <<>>>>} \cup {<<<<s>>, <<>>>> : s \in Strs \cup {"NoSuchSubtype"}} \cup {<<<<>>, <<p>>>> : p \in Prefixes}
+              \cup {<<<<s>>, <<SubSeq(n, 1, 2)>>>> : s \in Strs, n \in {m \in Names : Len(m) <= 4}}
+LocTypes == IF Light THEN PresentTypes \cup {DIE, GROUP, PCIDEV, OSDEV, BRIDGE, MISC} ELSE 0..(NTYPES - 1)
+QSameLocality == ~done /\ \E o \in Objs, ty \in LocTypes, f \in LocFilters, fl \in {0, 1} :
+                   (fl = 1 => f = <<<<>>, <<>>>>) /\ Fire([k |-> "same_locality", src |-> o, type |-> ty, st |-> f[1], np |-> f[2], flags |-> fl])
+QTypeDepth == ~done /\ \E ty \in (-1..NTYPES) \cup {1000} : Fire([k |-> "type_depth", type |-> ty])
+QTypeLookup == ~done /\ \E ty \in 0..(NTYPES - 1) : Fire([k |-> "type_lookup", type |-> ty])
+QDepthLookup == ~done /\ \E d \in Depths \cup BadDepths \cup {-4, -5, -6, -7} : Fire([k |-> "depth_lookup", depth |-> d])
+QCacheTypeDepth == ~done /\ \E lv \in 0..5, ct \in -1..2 : Fire([k |-> "cache_type_depth", level |-> lv, ctype |-> ct])
+QPuByOs == ~done /\ \E os \in 0..(MaxOs + 2) : Fire([k |-> "pu_by_os", os |-> os])
+QNumaByOs == ~done /\ \E os \in 0..(MaxNode + 2) : Fire([k |-> "numa_by_os", os |-> os])
+QDistrib == ~done /\ \E r \in RootLists, n \in DistribNs, u \in Untils, fl \in {0, 1} : Fire([k |-> "distrib", roots |-> r, n |-> n, until |-> u, flags |-> fl])
+QDistribBad == ~done /\ \E r \in {<<1>>}, n \in {0, 1, 3}, fl \in {0, 2, 3, 256} : (n = 0 \/ fl > 1) /\ Fire([k |-> "distrib", roots |-> r, n |-> n, until |-> INT_MAX, flags |-> fl])
+QSinglify == ~done /\ \E a \in SetArgs, w \in 0..3 : Fire(SetQ("singlify", a) @@ [which |-> w])
+
+QMemParentsDepth == ~done /\ Fire([k |-> "mem_parents_depth"])
+QTypeDepthAttr == ~done /\ \E ty \in {GROUP, PACKAGE, NUMANODE}, gd \in 0..3, na \in {0, 1} : Fire([k |-> "type_depth_attr", type |-> ty, gdepth |-> gd, noattr |-> na])
+PciIds == {<<0, 0, 0, 0>>} \cup UNION {LET a == O(T0, i).attr.pci IN
+             {<<a.dom, a.bus, a.dev, a.func>>, <<a.dom + 1, a.bus, a.dev, a.func>>, <<a.dom, a.bus + 1, a.dev, a.func>>, <<a.dom, a.bus, a.dev + 1, a.func>>, <<a.dom, a.bus, a.dev, a.func + 1>>}
+             : i \in {j \in Objs : O(T0, j).type = PCIDEV}}
+QPciByBusid == ~done /\ \E id \in PciIds : Fire([k |-> "pcidev_by_busid", dom |-> id[1], bus |-> id[2], dev |-> id[3], func |-> id[4]])
+QBridgeCovers == ~done /\ \E o \in {1} \cup {j \in Objs : O(T0, j).type \in {BRIDGE, PCIDEV}}, dom \in {0, 1}, bus \in 0..4 : Fire([k |-> "bridge_covers", obj |-> o, dom |-> dom, bus |-> bus])
 
 Next == \/ QCovering \/ QCacheCovering \/ QFirstLargest \/ QChildCovering \/ QLargest
         \/ QInsideDepth \/ QInsideType \/ QIndexInside \/ QCoveringDepth \/ QCoveringType
         \/ QAncDepth \/ QAncType \/ QCommon \/ QInSubtree \/ QNextChild \/ QSharedCache \/ QNonIOAnc
         \/ QClosest \/ QBelow \/ QBelowArray \/ QToNodeset \/ QFromNodeset \/ QSameLocality
         \/ QTypeDepth \/ QTypeLookup \/ QDepthLookup \/ QCacheTypeDepth \/ QPuByOs \/ QNumaByOs
-        \/ QDistrib \/ QDistribBad \/ QSinglify
+        \/ QDistrib \/ QDistribBad \/ QSinglify \/ QMemParentsDepth \/ QTypeDepthAttr \/ QPciByBusid \/ QBridgeCovers
 Spec == Init /\ [][Next]_vars
 
 (* ------------------------------------------------------------------ *)
@@ -182,6 +196,11 @@ ThmDistrib == (Is("distrib") /\ q.flags \in {0, 1} /\ q.n > 0) =>
   IN U # {} => /\ Len(out) = q.n
                /\ LET sets == [k \in DOMAIN out |-> LET RECURSIVE rl(_) rl(X) == IF X = {} THEN <<>> ELSE LET m == CHOOSE x \in X : \A y \in X : x <= y IN <<<<m, m>>>> \o rl(X \ {m}) IN rl(out[k])]
                   IN DistribRel(T0, q.roots, q.n, q.until, q.flags, 0, "0", sets, [k \in DOMAIN out |-> 0], 0)
+
+\* hwloc_get_memory_parents_depth as projected agrees with the brute-force definition; an attribute never changes a single-level answer
+ThmMemParents == Is("mem_parents_depth") => MemParentsDepthRel(T0, T0.mpdepth)
+ThmTypeDepthAttr == Is("type_depth_attr") => (\E r \in -8..T0.depth : TypeDepthAttrRel(T0, q.type, q.gdepth, q.noattr, r))
+                                             /\ (TypeDepthBF(T0, q.type) # DEPTH_MULTIPLE => TypeDepthAttrRel(T0, q.type, q.gdepth, q.noattr, TypeDepthBF(T0, q.type)))
 
 View == <<q, done>>
 \* emission: one descriptor per reachable query
